@@ -1,1 +1,163 @@
-//! placeholder
+//! Deterministic `Signer` over a fixed key pool.
+//!
+//! RSA key generation (~100 ms) would dominate every object-building
+//! enumeration and make runs non-reproducible, so all keys come from
+//! `/verif/keys/rsa-<n>.p8` (test material, PKCS#8 DER, committed).
+//! RSA PKCS#1 v1.5 signatures are deterministic, so every built object is a
+//! pure function of the enumeration index.
+
+use std::io;
+use std::sync::atomic::{AtomicUsize, Ordering};
+use aws_lc_rs::{digest, encoding, rand, rsa, signature};
+use aws_lc_rs::signature::KeyPair as _;
+use rpki::crypto::keys::{KeyIdentifier, PublicKey, PublicKeyFormat};
+use rpki::crypto::signature::{Signature, SignatureAlgorithm};
+use rpki::crypto::signer::{KeyError, Signer, SigningAlgorithm, SigningError};
+use crate::engine::report::verif_dir;
+
+pub const POOL_SIZE: usize = 8;
+
+pub struct PoolKey {
+    pair: rsa::KeyPair,
+    pub spki_der: Vec<u8>,
+    pub public: PublicKey,
+    /// SHA-1 of the subjectPublicKey BIT STRING content, computed here
+    /// (independently of `PublicKey::key_identifier`).
+    pub ski: [u8; 20],
+}
+
+pub struct PoolSigner {
+    pub keys: Vec<PoolKey>,
+    next: AtomicUsize,
+    rng: rand::SystemRandom,
+    ctr: AtomicUsize,
+}
+
+#[derive(Clone, Copy, Debug, PartialEq, Eq, Hash, PartialOrd, Ord)]
+pub struct Kid(pub usize);
+
+/// Extracts the subjectPublicKey bits from an SPKI DER (SEQ { alg, BIT STRING }).
+fn spki_key_bits(spki: &[u8]) -> Vec<u8> {
+    let n = crate::engine::der::parse_one(spki, false).expect("spki");
+    let bs = &n.children[1];
+    bs.content(spki)[1..].to_vec()
+}
+
+impl PoolSigner {
+    pub fn load() -> PoolSigner {
+        let dir = format!("{}/keys", verif_dir());
+        let mut keys = Vec::new();
+        for i in 0..POOL_SIZE {
+            let p = format!("{dir}/rsa-{i}.p8");
+            let der = std::fs::read(&p).unwrap_or_else(|e| {
+                eprintln!("MACHINERY-ERROR: cannot read {p}: {e}"); std::process::exit(2) });
+            let pair = rsa::KeyPair::from_pkcs8(&der).expect("pkcs8 key");
+            let spki_der = encoding::AsDer::<encoding::PublicKeyX509Der>::as_der(pair.public_key())
+                .expect("spki").as_ref().to_vec();
+            let public = PublicKey::decode(spki_der.as_slice()).expect("public key decodes");
+            let d = digest::digest(&digest::SHA1_FOR_LEGACY_USE_ONLY, &spki_key_bits(&spki_der));
+            let mut ski = [0u8; 20];
+            ski.copy_from_slice(d.as_ref());
+            keys.push(PoolKey { pair, spki_der, public, ski });
+        }
+        PoolSigner { keys, next: AtomicUsize::new(0), rng: rand::SystemRandom::new(), ctr: AtomicUsize::new(0) }
+    }
+
+    pub fn key(&self, i: usize) -> &PoolKey { &self.keys[i % self.keys.len()] }
+    pub fn kid(&self, i: usize) -> Kid { Kid(i % self.keys.len()) }
+    pub fn public(&self, i: usize) -> PublicKey { self.key(i).public.clone() }
+    pub fn ski(&self, i: usize) -> KeyIdentifier { KeyIdentifier::from(self.key(i).ski) }
+
+    /// RSA PKCS#1 v1.5 SHA-256 signature by aws-lc directly.
+    pub fn sign_raw(&self, i: usize, data: &[u8]) -> Vec<u8> {
+        let k = self.key(i);
+        let mut sig = vec![0u8; k.pair.public_modulus_len()];
+        k.pair.sign(&signature::RSA_PKCS1_SHA256, &self.rng, data, &mut sig).expect("sign");
+        sig
+    }
+}
+
+pub fn sha256(data: &[u8]) -> Vec<u8> { digest::digest(&digest::SHA256, data).as_ref().to_vec() }
+pub fn sha1(data: &[u8]) -> Vec<u8> { digest::digest(&digest::SHA1_FOR_LEGACY_USE_ONLY, data).as_ref().to_vec() }
+
+impl Signer for PoolSigner {
+    type KeyId = Kid;
+    type Error = io::Error;
+
+    /// Hands out pool keys round-robin instead of generating.
+    fn create_key(&self, algorithm: PublicKeyFormat) -> Result<Kid, io::Error> {
+        if algorithm != PublicKeyFormat::Rsa { return Err(io::Error::other("invalid algorithm")) }
+        Ok(Kid(self.next.fetch_add(1, Ordering::Relaxed) % self.keys.len()))
+    }
+
+    fn get_key_info(&self, key: &Kid) -> Result<PublicKey, KeyError<io::Error>> {
+        self.keys.get(key.0).map(|k| k.public.clone()).ok_or(KeyError::KeyNotFound)
+    }
+
+    fn destroy_key(&self, key: &Kid) -> Result<(), KeyError<io::Error>> {
+        if key.0 < self.keys.len() { Ok(()) } else { Err(KeyError::KeyNotFound) }
+    }
+
+    fn sign<Alg: SignatureAlgorithm, D: AsRef<[u8]> + ?Sized>(
+        &self, key: &Kid, algorithm: Alg, data: &D
+    ) -> Result<Signature<Alg>, SigningError<io::Error>> {
+        if key.0 >= self.keys.len() { return Err(SigningError::KeyNotFound) }
+        if !matches!(algorithm.signing_algorithm(), SigningAlgorithm::RsaSha256) {
+            return Err(SigningError::IncompatibleKey)
+        }
+        Ok(Signature::new(algorithm, self.sign_raw(key.0, data.as_ref()).into()))
+    }
+
+    /// One-off keys are the last pool key (deterministic, never generated).
+    fn sign_one_off<Alg: SignatureAlgorithm, D: AsRef<[u8]> + ?Sized>(
+        &self, algorithm: Alg, data: &D
+    ) -> Result<(Signature<Alg>, PublicKey), io::Error> {
+        let i = self.keys.len() - 1;
+        if !matches!(algorithm.signing_algorithm(), SigningAlgorithm::RsaSha256) {
+            return Err(io::Error::other("invalid algorithm"))
+        }
+        Ok((Signature::new(algorithm, self.sign_raw(i, data.as_ref()).into()), self.keys[i].public.clone()))
+    }
+
+    /// Deterministic "random" octets (a counter), so runs are reproducible.
+    fn rand(&self, target: &mut [u8]) -> Result<(), io::Error> {
+        let c = self.ctr.fetch_add(1, Ordering::Relaxed) as u64;
+        for (i, b) in target.iter_mut().enumerate() {
+            *b = (c.wrapping_mul(0x9E37_79B9_7F4A_7C15).rotate_left((i % 61) as u32) >> 8) as u8 ^ (i as u8);
+        }
+        Ok(())
+    }
+}
+
+/// Generates the key pool (run once; the files are committed).
+pub fn generate_pool() {
+    let dir = format!("{}/keys", verif_dir());
+    std::fs::create_dir_all(&dir).unwrap();
+    for i in 0..POOL_SIZE {
+        let p = format!("{dir}/rsa-{i}.p8");
+        if std::path::Path::new(&p).exists() { continue }
+        let pair = rsa::KeyPair::generate(rsa::KeySize::Rsa2048).expect("generate");
+        let der = encoding::AsDer::<encoding::Pkcs8V1Der>::as_der(&pair).expect("pkcs8");
+        std::fs::write(&p, der.as_ref()).unwrap();
+        println!("wrote {p}");
+    }
+    // two P-256 public keys for router certificates (SPKI DER)
+    for i in 0..2 {
+        let p = format!("{dir}/ec-{i}.spki");
+        if std::path::Path::new(&p).exists() { continue }
+        let rng = rand::SystemRandom::new();
+        let doc = signature::EcdsaKeyPair::generate_pkcs8(&signature::ECDSA_P256_SHA256_ASN1_SIGNING, &rng).expect("ec");
+        let pair = signature::EcdsaKeyPair::from_pkcs8(&signature::ECDSA_P256_SHA256_ASN1_SIGNING, doc.as_ref()).expect("ec");
+        let spki = encoding::AsDer::<encoding::PublicKeyX509Der>::as_der(pair.public_key()).expect("spki");
+        std::fs::write(&p, spki.as_ref()).unwrap();
+        std::fs::write(format!("{dir}/ec-{i}.p8"), doc.as_ref()).unwrap();
+        println!("wrote {p}");
+    }
+}
+
+/// P-256 public key for router certificates.
+pub fn ec_public(i: usize) -> PublicKey {
+    let p = format!("{}/keys/ec-{}.spki", verif_dir(), i % 2);
+    let der = std::fs::read(&p).expect("ec key");
+    PublicKey::decode(der.as_slice()).expect("ec public key decodes")
+}
